@@ -54,7 +54,7 @@ def expected(inputs):
 
 
 def run(ctx):
-    from lib.sim import Sim, Fifo, RandomOrder
+    from lib.sim import Sim, Fifo, RandomOrder, Coalesce
     ok = ctx.build() and ctx.check_props()
     rng = ctx.rng
     ctx.rule = ('case = (m, t, prss, crashing party, byte offset of the cut in its outgoing streams, fault mode, schedule); '
@@ -115,16 +115,18 @@ def run(ctx):
             if len(cand) > per_party * 2:
                 cand = sorted(rng.sample(cand, per_party * 2))
             for cut in cand:
-                mode = rng.choice(['silent', 'lost-none', 'lost-exc'])
-                sched = rng.choice(['fifo', 'random'])
+                mode = rng.choice(['silent', 'lost-none', 'lost-exc', 'lost-none-early', 'lost-none-early'])
+                sched = rng.choice(['fifo', 'random', 'coalesce', 'coalesce'])
                 store = {}
                 sim = Sim(m, t, no_prss=no_prss, seed=seed)
                 try:
                     sim.start()
                     sim.net.cut[c] = cut
-                    policy = Fifo() if sched == 'fifo' else RandomOrder(random.Random(cut))
-                    r = sim.run(make_prog(inputs, store), policy, idle_limit=250)
-                    if mode != 'silent' and c in sim.net.dead:
+                    if mode == 'lost-none-early':
+                        sim.net.loss_mode = 'none'     # survivors learn of the disconnect while still computing
+                    policy = Fifo() if sched == 'fifo' else (Coalesce() if sched == 'coalesce' else RandomOrder(random.Random(cut)))
+                    r = sim.run(make_prog(inputs, store), policy, idle_limit=250, spins=3 if sched == 'coalesce' else 1)
+                    if mode in ('lost-none', 'lost-exc') and c in sim.net.dead:
                         for q in range(m):
                             if q != c:
                                 proto = sim.net.protos.get((q, c))
